@@ -165,7 +165,7 @@ def enclosing_body(ex: Extraction, f: Fact) -> Optional[BodyDef]:
 
 def frame_formula(ex: Extraction, fr: tuple, dclass: str):
     k = fr[0]
-    if k in ("for", "py", "switch", "fsm", "cond", "try", "finally", "match", "while"):
+    if k in ("for", "py", "switch", "fsm", "cond", "try", "finally", "match", "while", "except"):
         return True
     if dclass == TOP:
         return True
